@@ -1,3 +1,4 @@
+import Insim.Base.Bytes
 /-
 Association-list lemmas used by every table-driven property (vehicles, tracks, enums, codepages).
 -/
@@ -48,5 +49,92 @@ theorem lookup_eq_of_agree {t s : List (κ × ν)} (h : tablesAgree t s = true) 
       have := h2 _ (lookup_some_mem hs)
       simp only at this
       rw [ht] at this; cases this
+
+end Insim
+
+/-! ### kernel-friendly tables
+
+`decide +kernel` evaluates `Nat.beq` natively; the generic `BEq`/`DecidableEq` instances on lists build
+proof terms and are several times slower on the 154-row tables. These are the same functions with the
+comparisons spelled out. -/
+namespace Insim
+
+def beqB : Bytes → Bytes → Bool
+  | [], [] => true
+  | a :: as, b :: bs => Nat.beq a b && beqB as bs
+  | _, _ => false
+
+theorem beqB_iff (a b : Bytes) : beqB a b = true ↔ a = b := by
+  induction a generalizing b with
+  | nil => cases b <;> simp [beqB]
+  | cons x xs ih =>
+    cases b with
+    | nil => simp [beqB]
+    | cons y ys => simp [beqB, ih, Nat.beq_eq_true_eq]
+
+/-- lookup by a `Nat` key -/
+def lookupN {β} (k : Nat) : List (Nat × β) → Option β
+  | [] => none
+  | (a, b) :: r => if Nat.beq a k then some b else lookupN k r
+
+/-- lookup by a byte-string key -/
+def lookupB {β} (k : Bytes) : List (Bytes × β) → Option β
+  | [] => none
+  | (a, b) :: r => if beqB a k then some b else lookupB k r
+
+def memN (k : Nat) : List Nat → Bool
+  | [] => false
+  | a :: r => Nat.beq a k || memN k r
+
+def optBeqB : Option Bytes → Bytes → Bool
+  | some a, b => beqB a b
+  | none, _ => false
+
+def optBeqN : Option Nat → Nat → Bool
+  | some a, b => Nat.beq a b
+  | none, _ => false
+
+theorem optBeqB_iff (o : Option Bytes) (b : Bytes) : optBeqB o b = true ↔ o = some b := by
+  cases o <;> simp [optBeqB, beqB_iff]
+
+theorem optBeqN_iff (o : Option Nat) (b : Nat) : optBeqN o b = true ↔ o = some b := by
+  cases o <;> simp [optBeqN, Nat.beq_eq_true_eq]
+
+theorem lookupN_some_mem {β} {t : List (Nat × β)} {k : Nat} {v : β} (h : lookupN k t = some v) : (k, v) ∈ t := by
+  induction t with
+  | nil => simp [lookupN] at h
+  | cons r rs ih =>
+    obtain ⟨a, b⟩ := r
+    simp only [lookupN] at h
+    split at h
+    · rename_i he
+      have : a = k := Nat.eq_of_beq_eq_true he
+      injection h with h; subst h; subst this; simp
+    · exact List.mem_cons_of_mem _ (ih h)
+
+theorem lookupB_some_mem {β} {t : List (Bytes × β)} {k : Bytes} {v : β} (h : lookupB k t = some v) : (k, v) ∈ t := by
+  induction t with
+  | nil => simp [lookupB] at h
+  | cons r rs ih =>
+    obtain ⟨a, b⟩ := r
+    simp only [lookupB] at h
+    split at h
+    · rename_i he
+      have : a = k := (beqB_iff a k).mp he
+      injection h with h; subst h; subst this; simp
+    · exact List.mem_cons_of_mem _ (ih h)
+
+theorem memN_iff (k : Nat) (l : List Nat) : memN k l = true ↔ k ∈ l := by
+  induction l with
+  | nil => simp [memN]
+  | cons a r ih =>
+    simp only [memN, Bool.or_eq_true, ih, List.mem_cons]
+    constructor
+    · rintro (h | h)
+      · exact Or.inl (Nat.eq_of_beq_eq_true h).symm
+      · exact Or.inr h
+    · rintro (h | h)
+      · subst h; exact Or.inl (Nat.beq_refl _)
+      · exact Or.inr h
 
 end Insim
